@@ -3,7 +3,8 @@
 import json, os, subprocess, sys
 VERIF = os.path.dirname(os.path.dirname(os.path.abspath(__file__)))
 sys.path.insert(0, VERIF)
-from checks_config import CHECKS, PACKAGES, NOT_APPLICABLE, HOOK_COMMITS  # noqa
+from checks_config import CHECKS as ALL_CHECKS, PACKAGES, NOT_APPLICABLE, HOOK_COMMITS, CLAIMED  # noqa
+CHECKS = {k: v for k, v in ALL_CHECKS.items() if k in CLAIMED}
 
 props = [json.loads(l)["id"] for l in open(os.path.join(VERIF, "properties.jsonl"))]
 checks = []
